@@ -81,6 +81,31 @@ class MonBase:
     def violation_if(self, prop, check, detail):
         return self.violation(prop, check, detail)
 
+    def guard(self, prop, fn, *args, **kw):
+        """Run one oracle.  An exception raised *by library code* that an oracle calls (get_map,
+        invert, map, merge, to_json ...) is a verdict against the property whose oracle it is; an
+        exception raised by harness code stays a harness error."""
+        import boot
+
+        try:
+            return fn(*args, **kw)
+        except (Violation, core.SimCrash, core.AbortRun, core.BudgetExceeded):
+            raise
+        except Exception as e:  # noqa: BLE001
+            tb = e.__traceback__
+            last = None
+            while tb is not None:
+                last = tb
+                tb = tb.tb_next
+            fname = last.tb_frame.f_code.co_filename if last is not None else ""
+            if prop in self.on and fname.startswith(boot.REPO.rstrip("/") + "/"):
+                self.violation(prop, "library_raised_in_oracle", {
+                    "shape": "%s:%s" % (type(e).__name__, last.tb_frame.f_code.co_name),
+                    "error": repr(e), "where": "%s:%d" % (fname, last.tb_lineno),
+                    "oracle": getattr(fn, "__name__", str(fn))})
+                return None
+            raise
+
     # ---------------------------------------------------------------- helpers
     def is_core(self):
         return self.sim.cfg["schema"] in CORE_SCHEMAS
